@@ -399,9 +399,11 @@ class ModuleVistor(NodeVisitor):
             if ob is None:
                 current.report("cannot resolve re-exported name :"
                                         f'{modname}.{origin_name}', thresh=1)
-            elif ob.parent is None:
-                # A top-level module has no place to be moved from, the name stays a regular import.
-                current.report("cannot move re-exported top-level module :"
+            elif isinstance(ob, model.Module) and (ob.parent is None or 
+                    ob.state is model.ProcessingState.PROCESSING):
+                # A top-level module has no place to be moved from and a module that is still 
+                # being processed can't be renamed: the name stays a regular import.
+                current.report("cannot move re-exported module :"
                                         f'{ob.fullName()}', thresh=1)
             else:
                 if origin_module.all is None or origin_name not in origin_module.all:
